@@ -268,16 +268,35 @@ func bigTreeRepo(r *rng) ([]gObj, []int64, []string) {
 }
 
 func cfgEnv(cfg []string) []string {
-	env := []string{"GIT_CONFIG_COUNT=" + strconv.Itoa(len(cfg))}
-	for i, kv := range cfg {
+	var kvs [][]string
+	for _, kv := range cfg {
 		p := strings.SplitN(kv, "=", 2)
+		if p[0] == "@file" { // handled by the caller: text appended to the repository's own config file
+			continue
+		}
 		if p[0] == "@pad" { // an unrelated entry with a value of that many bytes
 			n, _ := strconv.Atoi(p[1])
 			p = []string{"verif.pad", strings.Repeat("x", n)}
 		}
+		kvs = append(kvs, p)
+	}
+	env := []string{"GIT_CONFIG_COUNT=" + strconv.Itoa(len(kvs))}
+	for i, p := range kvs {
 		env = append(env, fmt.Sprintf("GIT_CONFIG_KEY_%d=%s", i, p[0]), fmt.Sprintf("GIT_CONFIG_VALUE_%d=%s", i, p[1]))
 	}
 	return env
+}
+
+// the "@file=<text>" entries of a configuration: text for the repository's own config file (the only way
+// to write a key WITHOUT a value, which git reads as boolean true)
+func cfgFileText(cfg []string) string {
+	var b strings.Builder
+	for _, kv := range cfg {
+		if strings.HasPrefix(kv, "@file=") {
+			b.WriteString(strings.TrimPrefix(kv, "@file="))
+		}
+	}
+	return b.String()
 }
 
 // an unrelated configuration entry longer than 64 KiB ahead of the sizer.* entries (a record reader with a
@@ -304,6 +323,10 @@ func genOptCase0(r *rng) optCase {
 	which := r.n(18)
 	if which >= 16 { // the progress family: its effect shows on stderr only
 		truthy := map[string]bool{"true": true, "yes": true, "on": true, "1": true}
+		if r.coin(1, 5) {
+			// `progress` without a value in the repository's config file: git reads it as true (seeded C14m read "")
+			return optCase{cfgA: []string{"@file=[sizer]\n\tprogress\n"}, argsA: []string{"@noforce"}, argsB: []string{"@noforce", "--progress"}, expect: "equal"}
+		}
 		if r.coin(1, 2) {
 			v := []string{"true", "false", "yes", "no", "on", "off", "1", "0"}[r.n(8)]
 			opt := "--no-progress"
@@ -412,7 +435,10 @@ func genOptCase0(r *rng) optCase {
 		case 3:
 			return optCase{argsA: []string{"--json", "--json-version=3"}, argsB: []string{"--json"}, expect: "failA"}
 		default:
-			bad := [][]string{{"--threshold=abc"}, {"--names=bogus"}, {"--include", "/(/"}, {"--include", "@nosuchgroup"}, {"--no-such-option"}, {"--branches=maybe"}, {"nosuchroot"}}[r.n(7)]
+			// a ROOT must name exactly ONE object: revision-range and multi-revision syntax is rejected even when it
+			// happens to expand to a single line (`X^!` of a root commit, `X^@` of a one-parent commit: seeded C10m)
+			bad := [][]string{{"--threshold=abc"}, {"--names=bogus"}, {"--include", "/(/"}, {"--include", "@nosuchgroup"}, {"--no-such-option"}, {"--branches=maybe"}, {"nosuchroot"},
+				{"refs/heads/side^!"}, {"refs/heads/main^@"}, {"refs/heads/side..refs/heads/main"}, {"^refs/heads/main"}, {"refs/heads/side^!", "refs/heads/main"}, {"refs/heads/main^-"}}[r.n(13)]
 			return optCase{argsA: bad, argsB: out, expect: "failA"}
 		}
 	}
@@ -451,6 +477,13 @@ func init() {
 			defer rr.cleanup()
 			run := func(cfg, args []string) (int, []byte, []byte) {
 				env := append(gitEnv(), cfgEnv(cfg)...)
+				if txt := cfgFileText(cfg); txt != "" {
+					cf := filepath.Join(rr.dir, "config")
+					if orig, err := os.ReadFile(cf); err == nil {
+						os.WriteFile(cf, append(append([]byte{}, orig...), []byte(txt)...), 0o644)
+						defer os.WriteFile(cf, orig, 0o644)
+					}
+				}
 				if len(args) > 0 && args[0] == "@noforce" { // progress-family cases choose the progress options themselves
 					args = args[1:]
 				} else {
